@@ -277,6 +277,40 @@ def run(ck):
                 paths = paths_of(prog, lambda it, fn=fn, cls=cls: fn(it, make_state(it, cls)), sticky=True)
                 ck.check(any(api.param_effects(p) for p in paths), "C14.R3", inst, prog.method(cls, name).site(),
                          "the effect analysis sees no parameter write in %s (detector or anchor broken)" % name)
+    # ------------------------------------------------------------------ R7 a repeated evaluation starts afresh
+    # "the same seeded sequence of operations gives the same results": the second of two identical statistics() calls draws
+    # its chains the way the first did (fresh random start, burn-in first) - it does not continue from what the first left
+    for kind, owner in (("observable", "ObservableBase"), ("system", "System")):
+        inst = "%s.statistics called twice" % owner
+        ssite = prog.method(owner, "statistics").site()
+        with ck.guard("C14.R7", inst, ssite):
+            def th7(it, kind=kind):
+                s = make_state(it, "PositiveWaveFunction")
+                obs = api.observable_instances(it, prog)
+                recv = obs["SigmaZ"] if kind == "observable" else it.instantiate(prog.cls("System"), [obs["SigmaZ"], obs["SigmaX"]], {}, None)
+                kw = {"burn_in": api.intsym("burn_in", pos=False), "steps": api.intsym("steps", pos=False), "num_chains": api.intsym("num_chains")}
+                call(it, recv, "statistics", s, api.intsym("num_samples"), **kw)
+                n0 = len(it.calls)
+                call(it, recv, "statistics", s, api.intsym("num_samples"), **kw)
+                return n0
+
+            ps7 = [p for p in paths_of(prog, th7, max_paths=60, sticky=True) if p.outcome == "return"]
+            ck.check(bool(ps7), "C14.R7", inst + ":returns", ssite, "two successive statistics() calls never return")
+            for p in ps7[:8]:
+                def smp(cs):
+                    return [c for c in cs if c[0].endswith(".sample") and c[0].split(".")[0] in ("NeuralStateBase", "PositiveWaveFunction")]
+
+                a_, b_ = smp(p.calls[:p.value]), smp(p.calls[p.value:])
+                if not a_ or not b_:
+                    ck.undecided("C14.R7", inst + " [%s]" % path_tag(p), ssite, "the draws of the two calls were not found")
+                    continue
+                def sig(c):
+                    i0 = c[5].get("initial_state")
+                    return (num_term(c[5].get("k")), isinstance(i0, VConst) and i0.value is None)
+
+                ck.check(sig(a_[0]) == sig(b_[0]), "C14.R7", inst + ":the second call starts like the first [%s]" % path_tag(p), ssite,
+                         "the first draw of the first call is sample(k=%r, fresh start=%s), that of an identical second call is sample(k=%r, fresh start=%s): the second call continues from state the first one left behind"
+                         % (sig(a_[0]) + sig(b_[0])), key="C14.R7|%s|second call continues" % owner)
     # ------------------------------------------------------------------ R6 no state shared between model instances
     # An object created once in a class body is the same object for every instance.  If instances change it (method calls on
     # it, item stores, augmented assignment), what one model does (a stop request, a recorded value) is seen by every other
@@ -321,8 +355,16 @@ def _readonly(ck, inst, thunk):
         ck.note_functions(functions_in_paths(paths))
         bad = []
         unk = []
+        scratch = []
         for p in paths:
-            bad.extend(api.param_effects(p, include_grad=True))
+            for e in api.param_effects(p, include_grad=True):
+                # a plain attribute the operation assigns without ever having looked at its earlier value is scratch data of this
+                # call (derived from the current parameters, overwritten by the next call): not state a later result can depend on
+                if e.kind == "setattr" and not getattr(e.obj, "is_parameter", False) and (id(e.obj), e.detail) not in p.interp.read_before_write \
+                        and not isinstance(getattr(e.obj, "attrs", {}).get(e.detail), VTens):
+                    scratch.append(e)
+                    continue
+                bad.append(e)
             unk.extend(api.unknown_effects(p, ("attr:rbm",)))
         if bad:
             e = bad[0]
